@@ -183,6 +183,10 @@ PROPS["C11"] = dict(
 
 
 
+WAKE_NOTE = ("about a third of the sampled scenarios (half of the exhaustive configurations) run wake-driven: after its first poll "
+             "Server::run is polled again only when the waker it was given has fired, and a registration counts only if made during "
+             "the most recent poll; every poll in every mode is checked against the wake-up contract (Pending => waker fired or registered)")
+
 SRV_ASSUME = ["the scripted transport and listener are the only sources of readiness (deterministic poll-by-poll executor)",
               "the test service answers as a pure function of the call; histories are recorded at the boundary (socket bytes, service log)"]
 
@@ -199,7 +203,7 @@ PROPS["C08"] = dict(
             "document + one NUL; at every quiescent point the output is a prefix of that and complete whenever the bytes sent so "
             "far end on a frame boundary; no frame of another client; the service saw each call exactly once in order; the server "
             "future is still pending; no panic"),
-    assumptions=SRV_ASSUME,
+    assumptions=SRV_ASSUME + [WAKE_NOTE],
     floor_quick=20_000, floor_thorough=1_000_000,
     steps=[
         dict(layer="native", monitor="c08", shards_quick=4, shards_thorough=16),
@@ -213,14 +217,15 @@ PROPS["C09"] = dict(
     rule=("fault kinds {garbage bytes, malformed frame, wrong parameter types, unknown method, escaped string for a borrowed "
           "field, invalid UTF-8 in an ignored member, non-object document, truncated frame then EOF, EOF mid-burst, read error, "
           "write error on the k-th write, fault while the connection is in streaming mode, write error on a stream item, "
-          "oversized frame (lowered-limit build)} x position 0..2 in the faulty client's script x 1..3 healthy clients (plain, "
+          "stray terminators (empty frames), oversized frame (lowered-limit build)} x position 0..2 in the faulty client's script x 1..3 healthy clients (plain, "
           "oneway, error and streaming calls) x event orders (all orders when <= 300, else sampled with batched / in-handle "
-          "arrivals); distinct = hash of (scripts, cuts, fault placement, step list)"),
+          "arrivals); plus two churn histories (26000 / 6000 faulty clients of six kinds one after the other, thorough 120000, with a "
+          "resident healthy client calling throughout and a newcomer at the end); distinct = hash of (scripts, cuts, fault placement, step list)"),
     oracle=("relational: run A = full schedule, run B = same schedule with every event of the faulty client deleted; for every "
             "healthy client output_A == output_B byte for byte, the service saw the same healthy calls, a healthy connection is "
             "not closed, Server::run is still pending, nothing panics; additionally the healthy clients match the sequential "
             "reference model of C08/C10"),
-    assumptions=SRV_ASSUME + ["accept() errors are not in the property's fault list and are not injected"],
+    assumptions=SRV_ASSUME + [WAKE_NOTE, "accept() errors are not in the property's fault list and are not injected"],
     floor_quick=10_000, floor_thorough=500_000,
     steps=[
         dict(layer="native", monitor="c09", shards_quick=4, shards_thorough=16),
@@ -244,7 +249,7 @@ PROPS["C10"] = dict(
             "connection not parked behind an open stream is answered (other clients are served while a stream is open); no "
             "produced item stays undelivered; an open subscription of a writable client is never dropped; after a failed write "
             "no further write is attempted and the client is dropped"),
-    assumptions=SRV_ASSUME,
+    assumptions=SRV_ASSUME + [WAKE_NOTE],
     floor_quick=20_000, floor_thorough=1_000_000,
     steps=[
         dict(layer="native", monitor="c10", shards_quick=4, shards_thorough=16),
@@ -264,7 +269,7 @@ PROPS["C18"] = dict(
             "previous call of the connection served, connection accepted, stream in front of it ended); (a) in a window "
             "(ready, served) without accept/closure/stream transition no other connection is served twice; (b) in general at "
             "most N*(T+1) other calls are served in the window; (c) at every quiescent point no ready call is unserved"),
-    assumptions=SRV_ASSUME + ["a transition is attributed to a window conservatively: from the tick its event is applied until the next quiescent point"],
+    assumptions=SRV_ASSUME + [WAKE_NOTE, "a transition is attributed to a window conservatively: from the tick its event is applied until the next quiescent point"],
     floor_quick=20_000, floor_thorough=1_000_000,
     steps=[
         dict(layer="native", monitor="c18", shards_quick=4, shards_thorough=16),
@@ -280,7 +285,8 @@ PROPS["C20"] = dict(
           "poll-by-poll executor; ALL sequences up to length 9 (thorough 11) over {set, subscribe, poll0, poll1, drop} with <= 4 "
           "sets and <= 2 subscribers that end in a poll, plus seeded random sequences (<= 6 sets, 3 subscribers, clones); Once: "
           "all sequences over {poll, notify, drop notifier} up to length 7; distinct = hash of the sequence"),
-    oracle=("per subscriber: values strictly increasing, all set after it subscribed, each item continues==true; a poll is Pending "
+    oracle=("every sequence is executed poll-by-poll and wake-driven (a subscriber that answered Pending is polled again only after its "
+            "waker fired; an unwoken subscriber must have seen the latest value); per subscriber: values strictly increasing, all set after it subscribed, each item continues==true; a poll is Pending "
             "only if the subscriber has already yielded the latest value set since it subscribed; the stream ends only after "
             "every handle of the state is gone and never before the most recent value was delivered; set/get never panic. Once: "
             "exactly one item with continues==false then end; dropped notifier => end without item; Pending only before. The "
